@@ -259,9 +259,54 @@ func checkC07(c *mc.Ctx) {
 			n++
 		}
 	}
+	// loss and garbage confined to PID A: every subset of A's packets deleted; garbage packets with
+	// A's PID (arbitrary counter, PUSI or not, PES-looking or not) inserted at every position
+	{
+		var aIdx []int
+		for pi, p := range st.Pkts {
+			if p.PID == 0x100 {
+				aIdx = append(aIdx, pi)
+			}
+		}
+		for mask := 1; mask < 1<<uint(len(aIdx)); mask++ {
+			var ps []*ref.Pkt
+			for pi, p := range st.Pkts {
+				drop := false
+				for k, ai := range aIdx {
+					if ai == pi && mask>>uint(k)&1 == 1 {
+						drop = true
+					}
+				}
+				if !drop {
+					ps = append(ps, p)
+				}
+			}
+			b := EncodePkts(ps)
+			c07Compare(c, l, DemuxBytes(b), []int{-1, mask}, b, patFirst, map[uint16]bool{0x100: true})
+			cdone++
+			n++
+			c.Ev.Class("pid-loss", 1)
+		}
+		garbage := []*ref.Pkt{
+			{PID: 0x100, HasPL: true, CC: 9, Payload: bytes.Repeat([]byte{0x5a}, 184)},
+			{PID: 0x100, HasPL: true, PUSI: true, CC: 3, Payload: append([]byte{0, 0, 1, 0xe0, 0xff, 0xff, 0x80, 0xc0, 0x0a}, bytes.Repeat([]byte{0x11}, 175)...)},
+			{PID: 0x100, HasPL: true, PUSI: true, CC: 0, Payload: bytes.Repeat([]byte{0x00}, 184)},
+			{PID: 0x100, HasPL: true, HasAF: true, AF: &ref.AF{Disc: true, Stuffing: 100}, CC: 12, Payload: bytes.Repeat([]byte{0xfe}, 82)},
+		}
+		for at := 0; at <= len(st.Pkts); at++ {
+			for _, g := range garbage {
+				ps := append(append(append([]*ref.Pkt{}, st.Pkts[:at]...), g), st.Pkts[at:]...)
+				b := EncodePkts(ps)
+				c07Compare(c, l, DemuxBytes(b), []int{-2, at}, b, patFirst, map[uint16]bool{0x100: true})
+				cdone++
+				n++
+				c.Ev.Class("pid-garbage", 1)
+			}
+		}
+	}
 	c.Ev.DistinctAdd(cdone)
 	c.Ev.AddScenario(mc.Scenario{Name: "single-pid-corruption", SpaceSize: n, Executed: cdone, Exhaustive: cdone == n,
-		Bound: "every byte of every packet of PID 0x100 (PID bits excluded) x {0x00, 0xFF, ^0x01, ^0x80, +1, 0x47} plus TEI/PUSI/priority flips; all other PIDs must be unchanged"})
+		Bound: "every byte of every packet of PID 0x100 (PID bits excluded) x {0x00, 0xFF, ^0x01, ^0x80, +1, 0x47} plus TEI/PUSI/priority flips, every subset of its packets deleted, 4 garbage packets with its PID at every position; all other PIDs must be unchanged"})
 	c.Ev.Require("pmt-after-pat", "pmt-before-pat", "packet-inserted", "pid-corrupted", "merge-with-duplicates")
 }
 
